@@ -1,6 +1,6 @@
 (** C10 — Visible heads are normalized and cover everything referenced.
     Model: Model/RepoV.v (lib/src/view.rs, lib/src/repo.rs, lib/src/transaction.rs). *)
-From Verif Require Import Base.Prelude Base.DagV Model.Merge Model.RepoV Model.C10 Proofs.C10.
+From Verif Require Import Base.Prelude Base.DagV Model.Merge Model.RepoV Model.C10 Proofs.C10 Proofs.C10Rebase.
 
 (** The checker evaluated on the implementation's committed views means exactly the invariant:
     the heads are a non-empty antichain of the commit graph, the root commit is a head only if it
@@ -23,6 +23,19 @@ Proof. exact okb_spec. Qed.
 Theorem C10_commit_inv_partial : forall s s' : state,
   reach_basic s -> step s OCommit = Ok s' -> Inv (pg (s_g s')) (s_v s').
 Proof. exact commit_inv_basic. Qed.
+
+(** ALL modelled operations, including rewrite_commit / abandon / divergent records and
+    rebase_descendants (any options, immutable set, tree oracle): for every state reachable from
+    the empty repository by guarded operations, the view written by Transaction::commit satisfies
+    the invariant. Guards ([op_okb]): ids exist; bookmark targets have odd arity; and for a
+    descendant rebase: after its bookmark and working-copy updates no bookmark adds and no
+    workspace sits on a commit that still has a rewrite record (this is what C11_bookmarks_follow /
+    C11_wc_follows prove for unconflicted bookmarks and all workspaces, and what the C11 checker
+    evaluates on the implementation's output; it can fail only for a conflicted bookmark that adds
+    the same rewritten commit twice). *)
+Theorem C10_commit_inv : forall s s' : state,
+  reach_all s -> step s OCommit = Ok s' -> Inv (pg (s_g s')) (s_v s').
+Proof. exact commit_inv_all. Qed.
 
 (** The incremental head update of MutableRepo::add_heads: if [h] has parents and every parent of
     [h] is a head of a normalized head set (exactly the guard of the code), inserting [h] and
@@ -60,6 +73,8 @@ Definition C10_full : Prop :=
 Check C10_okb_spec : forall c : case, okb c = true <-> _.
 Check C10_commit_inv_partial : forall s s' : state,
   reach_basic s -> step s OCommit = Ok s' -> Inv (pg (s_g s')) (s_v s').
+Check C10_commit_inv : forall s s' : state,
+  reach_all s -> step s OCommit = Ok s' -> Inv (pg (s_g s')) (s_v s').
 
 Example C10_nonvacuous :
   exists s, reach_basic s /\ exists s', step s OCommit = Ok s' /\ length (s_g s') = 3 /\
@@ -73,5 +88,6 @@ Qed.
 
 Print Assumptions C10_okb_spec.
 Print Assumptions C10_commit_inv_partial.
+Print Assumptions C10_commit_inv.
 Print Assumptions C10_fast_path.
 Print Assumptions C10_root_fast_path_old_refuted.
